@@ -31,46 +31,124 @@ def gen_samples(rng, style):
     return [float(rng.randrange(-1000, 1000)) for _ in range(n)]
 
 
+SETTERS = (0, 1, 3, 4, 5, 6)      # modes that make the variable dirty (init / set1 / reset and their _ext forms)
+
+
 def gen_cases(ctx):
+    """A case: (P, seed, adversary, nvars, rounds, data, kinds); data[round][rank][var] = (mode, samples), kinds[round] = 0
+    (sc_stats_compute) or 1 (sc_stats_compute1).  The generator simulates the dirty flags so that sc_stats_accumulate is only
+    called on dirty variables (mode 7) and sc_stats_compute1 only when every variable has been set on every rank."""
     rng = ctx.rng
     cases = []
     Ps = [1, 2, 3, 4, 5, 6, 8, 9, 13] if ctx.quick else list(range(1, 20)) + [24, 32, 33]
     for P in Ps:
-        for rep in range(14 if ctx.quick else 40):
+        for rep in range(16 if ctx.quick else 40):
             nvars = rng.choice([1, 2, 3, 4])
-            rounds = rng.choice([1, 2])
+            rounds = rng.choice([1, 2, 2, 3, 4])
             styles = [rng.choice(["any", "pos", "neg", "ties", "empty", "any"]) for _ in range(nvars)]
-            # which ranks are empty for a variable: random subset, all, only highest, only lowest
-            data = []
+            isdirty = [[False] * nvars for _ in range(P)]
+            data, kinds = [], []
             for rd in range(rounds):
-                redo = [True] * nvars if rd == 0 else [rng.random() < 0.5 for _ in range(nvars)]
+                kind = 1 if rng.random() < 0.15 else 0
+                redo = [True] * nvars if (rd == 0 or kind == 1) else [rng.random() < 0.6 for _ in range(nvars)]
                 rdata = []
-                pattern = [rng.choice(["rand", "only_low", "only_high", "all_but_one", "all"]) for _ in range(nvars)]
+                # which ranks are empty for a variable: random subset, all, only highest, only lowest, and the protocol cases of the
+                # history theorems: reset_nothing = some ranks reset and contribute nothing while others have samples
+                pattern = [rng.choice(["rand", "only_low", "only_high", "all_but_one", "all", "reset_nothing", "none"]) for _ in range(nvars)]
                 # in a later round a variable may also be clean on SOME ranks only: those ranks contribute no sample to
                 # this computation and keep their old values, the others obtain the statistics of the dirty ranks
-                mixed = [rd > 0 and redo[i] and rng.random() < 0.4 for i in range(nvars)]
+                mixed = [rd > 0 and kind == 0 and redo[i] and rng.random() < 0.4 for i in range(nvars)]
                 for q in range(P):
                     row = []
                     for i in range(nvars):
                         if not redo[i] or (mixed[i] and rng.random() < 0.4):
-                            row.append((2, []))
+                            if isdirty[q][i] and rng.random() < 0.6:
+                                # still dirty (no sample anywhere in the round before): go on accumulating
+                                row.append((7, gen_samples(rng, styles[i])))
+                            else:
+                                row.append((2, []))
                             continue
                         pat = pattern[i]
-                        has = {"rand": rng.random() < 0.6, "only_low": q == 0, "only_high": q == P - 1,
-                               "all_but_one": q != P // 2, "all": True}[pat]
+                        has = {"rand": rng.random() < 0.6, "only_low": q == 0, "only_high": q == P - 1, "none": False,
+                               "all_but_one": q != P // 2, "all": True, "reset_nothing": q % 2 == 1}[pat]
                         xs = gen_samples(rng, styles[i]) if has else []
-                        if has and not xs and pat != "rand":
+                        if has and not xs and pat not in ("rand", "none"):
                             xs = [float(rng.randrange(-9, 9))]
-                        if len(xs) == 1 and rng.random() < 0.3:
-                            row.append((1, xs))
-                        elif rd > 0 and rng.random() < 0.4:
-                            row.append((3, xs))       # refill through sc_stats_reset (+ accumulate, possibly nothing)
+                        k = rng.random()
+                        if pat == "reset_nothing" and not has:
+                            row.append((rng.choice([3, 5]), []))
+                        elif len(xs) == 1 and k < 0.3:
+                            row.append((rng.choice([1, 1, 6]), xs))
+                        elif isdirty[q][i] and k < 0.5:
+                            row.append((7, xs))
+                        elif rd > 0 and k < 0.75:
+                            row.append((rng.choice([3, 3, 5]), xs))       # refill through sc_stats_reset (+ accumulate, possibly nothing)
                         else:
-                            row.append((0, xs))
+                            row.append((rng.choice([0, 0, 0, 4]), xs))
                     rdata.append(row)
+                # the dirty flags after this round
+                for i in range(nvars):
+                    d = [rdata[q][i][0] in SETTERS or isdirty[q][i] for q in range(P)]
+                    anysample = kind == 1 or any(d[q] and (rdata[q][i][1] or (rdata[q][i][0] == 7 and False)) for q in range(P))
+                    # samples accumulated in EARLIER rounds on a still dirty variable cannot exist: it stayed dirty because there were none
+                    for q in range(P):
+                        isdirty[q][i] = d[q] and not anysample
                 data.append(rdata)
-            cases.append((P, rng.randrange(1 << 30), rng.randrange(8), nvars, rounds, data))
+                kinds.append(kind)
+            cases.append((P, rng.randrange(1 << 30), rng.randrange(8), nvars, rounds, data, kinds))
     return cases
+
+
+def sample_hex(x):
+    v = int(x)
+    return ("-%x" % -v) if v < 0 else ("%x" % v)
+
+
+def history_lines(case):
+    """the model's input: one H line per variable (numeric part), one N line per rank and variable (naming part)"""
+    P, seed, adv, nvars, rounds, data, kinds = case
+    H, N = [], []
+    for i in range(nvars):
+        cells = []
+        for rd in range(rounds):
+            for q in range(P):
+                mode, xs = data[rd][q][i]
+                acc = ["A" + sample_hex(x) for x in xs]
+                if mode in (0, 4) or (mode in (3, 5) and rd == 0):
+                    t = ["I"] + acc
+                elif mode in (3, 5):
+                    t = ["R"] + acc
+                elif mode in (1, 6):
+                    t = ["S" + sample_hex(xs[0])]
+                elif mode == 7:
+                    t = acc
+                else:
+                    t = []
+                if kinds[rd]:
+                    t.append("P")
+                cells.append(" ".join(t))
+        H.append("H %d %d %s" % (P, rounds, " ; ".join(cells)))
+        for q in range(P):
+            owned = False
+            toks = []
+            for rd in range(rounds):
+                mode = data[rd][q][i][0]
+                if mode in (0, 1, 4, 6) and owned:
+                    toks.append("r1")       # the harness releases an owned name before it sets a new one
+                    owned = False
+                if mode in (0, 1) or (mode in (3, 5) and rd == 0):
+                    toks.append("i0,-2,-3")
+                elif mode in (4, 6):
+                    toks.append("i1,%x,%x" % (i, rd))
+                    owned = True
+                elif mode == 3:
+                    toks.append("r0")
+                elif mode == 5:
+                    toks.append("r1")
+                    owned = False
+                toks.append(".")
+            N.append("N " + " ".join(toks))
+    return H, N
 
 
 def oracle_var(P, contributions):
